@@ -230,9 +230,9 @@ func init() {
 		Expl: "Presence and coverage only: per round and step the two coordinate equalities between the bit-selected claimed evaluation and the running evaluation; after the steps the two equalities against the final polynomial at the folded point; the invertibility assertions; coverage of all rounds; the running evaluation is recomputed in every step from that step's data (no value stored into it in the step loop depends on its previous value) and is only ever compared (O13.6). The domain point, combination and interpolation formulas are not decided.",
 		Rule: "one obligation per equality coordinate / assertion / loop coverage"})
 	registerProp(&propDef{ID: "C16", Rules: withState("C16", func(cx *Ctx) []Obligation {
-		return append(append(append(append(rulesC16(cx), rulesConfigCoverage(cx, "C16/O16.3")...), ruleC16Windows(cx)...), ruleC16ChainEnds(cx)...), ruleC16ChainLinks(cx)...)
+		return append(append(append(append(rulesC16(cx), rulesConfigCoverage(cx, "C16/O16.3")...), ruleC16Windows(cx)...), ruleC16ChainEnds(cx)...), append(ruleC16ChainLinks(cx), ruleC16Strides(cx)...)...)
 	}), Floor: 10,
-		Expl: "Presence and coverage only: for every challenge round (full-range loop, count = Config.NumChallenges) an extension equality (both coordinates) between the vanishing value (depending on gates, wires, sigmas, Z, Z(next), partial products, public-input hash, challenges) and Z_H·quotient (from QuotientPolys via ReduceWithPowers); the L₀ division asserts existence; the partial-product openings are read through consecutive per-round windows (O16.5); the chain of running products is closed at both ends on every path — Z(ζ) and Z(gζ) are read and used unconditionally by the function that closes the chain, so a shape with no partial products still gets its check (O16.6). The formula is not decided.",
+		Expl: "Presence and coverage only: for every challenge round (full-range loop, count = Config.NumChallenges) an extension equality (both coordinates) between the vanishing value (depending on gates, wires, sigmas, Z, Z(next), partial products, public-input hash, challenges) and Z_H·quotient (from QuotientPolys via ReduceWithPowers); the L₀ division asserts existence; the partial-product openings are read through consecutive per-round windows (O16.5); the chain of running products is closed at both ends on every path — Z(ζ) and Z(gζ) are read and used unconditionally by the function that closes the chain, so a shape with no partial products still gets its check (O16.6); consecutive chain elements are linked n + 1 times (O16.7); a loop of package plonk that walks an extension list in strides of k ≥ 2 under a guard that protects its highest offset hands the leftover elements on, so no element of a chunk is dropped from its product (O16.8). The formula is not decided.",
 		Rule: "one obligation per coordinate and assertion"})
 	registerProp(&propDef{ID: "C05", Rules: withState("C05", withC06(func(cx *Ctx) []Obligation {
 		obs := append(append(rulesC05(cx), rulesW3(cx, "C05")...), rulesMagnitude(cx, "C05")...)
